@@ -112,6 +112,12 @@ def menu(tier):
             model = ('and', model, ('count', 'declare-const', 2),
                      ('has', ['declare-datatype', 'red', 'green', 'blue']))
         fam.append((f'shape-{name}', inp, model, 'default'))
+    for strat in S.STRATEGIES:
+        for eager in (False, True):
+            scn.append(S.mk(f'c18/table-window/{strat}/' +
+                            ('eager' if eager else 'fill'), S.WINDOW_INPUT,
+                            S.WINDOW_MODEL, strat, 1, S.WINDOW_ARGS,
+                            budget=2 if eager else b, eager_pull=eager))
     for name, inp, model, ms in fam:
         for strat in S.STRATEGIES:
             scn.append(S.mk(f'c18/{name}/{strat}', inp, model, strat, 1,
